@@ -282,6 +282,10 @@ func replayLoggerTree(b ltBeh, kind string, seed int64) (finds []Finding) {
 				}
 				loggers = append(loggers, parent.Sugar().With(args...).Desugar())
 			}
+			// With has evaluated its fields; the list is the caller's again and is re-used for something else
+			for i := range fs {
+				fs[i] = zap.String("SCRIBBLED-AFTER-WITH", "the caller re-used its field list")
+			}
 		case "WithLazy":
 			ncores++
 			fs := mk(ncores, op.N)
